@@ -611,7 +611,26 @@ def mon_proto(run):
     return [out[:400]]
 
 
+SPECFOLLOW = os.path.join(ROOT, "lean", ".lake", "build", "bin", "specfollow")
+
+
+def mon_follow(run):
+    """Channel-level trace validation: the run, with its critical sections in lock order and its final stores, must be
+    an execution of the Lean channel model `Spec.step` giving the same result for every call (lean exe `specfollow`)."""
+    if "LIMIT" in run.end or "TIMEOUT" in run.end:
+        return []
+    p = subprocess.run([SPECFOLLOW], input="\n".join(run.lines) + "\n", stdout=subprocess.PIPE, stderr=subprocess.PIPE, text=True)
+    out = p.stdout.strip().split("\n")[-1] if p.stdout.strip() else "no output " + p.stderr[-200:]
+    if out.startswith("ACCEPT"):
+        m = re.search(r"spec_steps=(\d+) calls=(\d+)", out)
+        if m:
+            run.follow = tuple(int(x) for x in m.groups())
+        return []
+    return [out[:400]]
+
+
 ALL_MONITORS = {
+    "follow": lambda run, ctx: mon_follow(run),
     "proto": lambda run, ctx: mon_proto(run),
     "wakerlife": lambda run, ctx: mon_waker_life(run),
     "drain": lambda run, ctx: mon_drain(run),
@@ -715,6 +734,10 @@ def run_profile(profile, seed, monitors, oracles, stats, workers=16):
             if nontriv:
                 stats["conc_nontrivial"].add(sig)
             stats["conc_ends"][run.end.split(" ")[1] if run.end else "none"] += 1
+            if getattr(run, "follow", None):
+                stats["follow_steps"] = stats.get("follow_steps", 0) + run.follow[0]
+                stats["follow_calls"] = stats.get("follow_calls", 0) + run.follow[1]
+                stats["follow_runs"] = stats.get("follow_runs", 0) + 1
             if getattr(run, "proto", None):
                 stats["proto_mutex_steps"] = stats.get("proto_mutex_steps", 0) + run.proto[0]
                 stats["proto_signals"] = stats.get("proto_signals", 0) + run.proto[1]
